@@ -453,7 +453,9 @@ pub fn register_upvalue<T>(
     let c = resolve_closure(closure)?;
 
     if is_local {
-        let location = &vm.runtime_data.value_stack.as_slice()[index as usize];
+        // the captured local lives in the frame of the function that creates the closure
+        let offset = stack_offset(vm);
+        let location = &vm.runtime_data.value_stack.as_slice()[offset + index as usize];
         let location = (location as *const Value).cast_mut();
         unsafe {
             // look for an existing upvalue to the same location
